@@ -535,6 +535,93 @@ unifex::inplace_stop_token tag_invoke(unifex::tag_t<unifex::get_stop_token>, con
 
 }  // namespace sor
 
+#if __cplusplus >= 202002L
+// =====================================================================================
+//  cancellable{create_raw_sender<>(event-dispatch lambda)}   (C++20 only)
+// =====================================================================================
+}  // namespace
+#include <unifex/create_raw_sender.hpp>
+#include <functional>
+namespace {
+namespace raw {
+
+// Same World / receiver / monitors as namespace can; the nested operation is the library's
+// _lambda_op::_op wrapped around an event-dispatch lambda (auto event, auto* self).
+std::function<void()> g_complete;   // set by the lambda's start branch: what thread A runs
+
+template <bool Early>
+void run() {
+  can::World w; can::g_w = &w;
+  w.sync = false; w.arb = true; w.destroy = true; w.early = Early;
+  g_complete = nullptr;
+  auto make = [] {
+    return unifex::cancellable{
+        unifex::create_raw_sender<>([](auto&& receiver) {
+          // the lambda object IS the nested operation: it may be called after its destruction (that is what
+          // the monitors look for), so it reaches the World through the global, never through a capture
+          return [receiver = std::forward<decltype(receiver)>(receiver), started = false](auto event, auto* self) mutable {
+            can::World& w = *can::g_w;
+            if constexpr (event.is_start) {
+              rt::obs("nested.start");
+              if (w.hook_runs) rt::fail("nested start() after the stop() hook");
+              if (++w.nested_starts > 1) rt::fail("nested start() twice");
+              started = true;
+              g_complete = [self, &receiver] {
+                can::World& w = *can::g_w;
+                bool r = unifex::try_complete(self);
+                if (r && ++w.tc_true > 1) rt::fail("try_complete() returned true twice");
+                if (r) unifex::set_value(std::move(receiver));
+                else rt::fail("try_complete() refused the unique claimant (completion)");
+              };
+              w.pending.store(true);
+              w.a_go.store(1);
+            } else if constexpr (event.is_stop) {
+              rt::point("hook-entry");
+              rt::obs("hook.stop");
+              if (w.op_destroyed) { rt::fail("stop() hook ran on a completed operation"); return; }
+              if (w.completions > 0) rt::fail("stop() hook ran on a completed operation");
+              if (++w.hook_runs > 1) rt::fail("stop() hook ran twice");
+              if (!w.early && w.nested_starts == 0) rt::fail("stop() hook before start() without StopsEarly");
+              rt::point("in-hook");
+              if (w.op_destroyed) { rt::fail("stop() hook ran on a completed operation"); return; }
+              if (!started || w.pending.exchange(false)) {
+                bool r = unifex::try_complete(self);
+                if (r && ++w.tc_true > 1) rt::fail("try_complete() returned true twice");
+                if (r) unifex::set_done(std::move(receiver));
+                else if (started) rt::fail("try_complete() refused the unique claimant (stop hook)");
+              }
+            }
+          };
+        }),
+        std::bool_constant<Early>{}};
+  };
+  using Sender = decltype(make());
+  using OpT = decltype(unifex::connect(std::declval<Sender>(), std::declval<can::Rcv>()));
+  static_assert(sizeof(OpT) <= sizeof(w.storage), "storage too small");
+  w.op_size = sizeof(OpT);
+  w.destroy_fn = +[](void* p) { static_cast<OpT*>(p)->~OpT(); };
+  int ta = rt::spawn([&] {
+    while (w.a_go.load() == 0) {}
+    bool took = w.pending.exchange(false);
+    rt::obs("A.take %d", took ? 1 : 0);
+    if (!took) return;
+    if (w.op_destroyed) { rt::fail("the unique claimant found the operation state destroyed"); return; }
+    g_complete();
+  });
+  int tb = rt::spawn([&] { can::thread_b(w); });
+  OpT* op = ::new (static_cast<void*>(w.storage)) OpT(unifex::connect(make(), can::Rcv{&w}));
+  rt::obs("start.begin");
+  unifex::start(*op);
+  rt::obs("start.end");
+  rt::join(ta); rt::join(tb);
+  w.finish();
+  g_complete = nullptr;
+  can::g_w = nullptr;
+}
+
+}  // namespace raw
+#endif
+
 }  // namespace
 
 // ---- tracked heap (see namespace heap) -------------------------------------------------------------
@@ -594,5 +681,11 @@ SCENARIO(s_ext) {
   rt::join(t1);
   w.finish();
 }
+
+#if __cplusplus >= 202002L
+// ---- cancellable{create_raw_sender<>(lambda)}: the configurations c_race / c_early again ------------
+SCENARIO(r_race)  { raw::run<false>(); }
+SCENARIO(r_early) { raw::run<true>(); }
+#endif
 
 RT_MAIN()
